@@ -90,6 +90,7 @@ impl CertificateRetriever for Retr {
 /// signing material of one epoch key K (= the registrations recorded under K): the signer set that is
 /// `current` for epoch K+1 and `next` for epoch K
 pub struct KeyCrypto {
+    pub params: ProtocolParameters,
     pub parties: Vec<usize>,
     pub multi_signer: ProtocolMultiSigner,
     pub signers: BTreeMap<usize, SingleSigner>,
@@ -170,6 +171,11 @@ pub struct World {
     pub cfg: ServeCommandConfiguration,
     pub fixture: MithrilFixture,
     pub params: ProtocolParameters,
+    /// the protocol parameters a signer registering for the epoch key K was told by the aggregator (its
+    /// `signer_registration_protocol_parameters`, what `/epoch-settings` serves); keys that are absent use `params`
+    pub params_of_key: BTreeMap<u64, ProtocolParameters>,
+    /// one fixture per parameter set in use (same parties, same keys: the key seeds depend on the party id only)
+    pub fixtures: Vec<MithrilFixture>,
     pub discs: Vec<SignedEntityTypeDiscriminants>,
     pub db_path: PathBuf,
     pub genesis_epoch: u64,
@@ -280,6 +286,8 @@ impl World {
             cfg,
             fixture,
             params,
+            params_of_key: BTreeMap::new(),
+            fixtures: vec![],
             discs: discs.to_vec(),
             db_path: dir.join("aggregator.sqlite3"),
             genesis_epoch: 1,
@@ -362,16 +370,41 @@ impl World {
         sets.iter().map(|s| self.entity_id(s)).collect()
     }
 
+    pub fn params_for_key(&self, key: u64) -> ProtocolParameters {
+        self.params_of_key.get(&key).cloned().unwrap_or_else(|| self.params.clone())
+    }
+
+    /// index (into `fixtures`) of the fixture whose initializers carry `p`
+    fn fixture_for(&mut self, p: &ProtocolParameters) -> Option<usize> {
+        if let Some(i) = self.fixtures.iter().position(|f| f.protocol_parameters() == *p) {
+            return Some(i);
+        }
+        let f = MithrilFixtureBuilder::default().with_signers(self.n()).with_protocol_parameters(p.clone()).build();
+        // same parties and same keys as the base fixture, or the parameter set is not usable here
+        let same = f.signers_fixture().iter().zip(self.fixture.signers_fixture().iter()).all(|(a, b)| {
+            a.signer_with_stake.party_id == b.signer_with_stake.party_id
+                && a.signer_with_stake.verification_key_for_concatenation.to_json_hex().ok() == b.signer_with_stake.verification_key_for_concatenation.to_json_hex().ok()
+                && a.signer_with_stake.stake == b.signer_with_stake.stake
+        });
+        if !same {
+            return None;
+        }
+        self.fixtures.push(f);
+        Some(self.fixtures.len() - 1)
+    }
+
     pub fn key_crypto(&mut self, key: u64) -> Option<&KeyCrypto> {
         let parties = self.regs.get(&key).cloned().unwrap_or_default();
         if parties.is_empty() {
             return None;
         }
-        let stale = self.crypto.get(&key).map(|c| c.parties != parties).unwrap_or(true);
+        let params = self.params_for_key(key);
+        let stale = self.crypto.get(&key).map(|c| c.parties != parties || c.params != params).unwrap_or(true);
         if stale {
-            let all = self.fixture.signers_fixture();
+            let fi = if params == self.params { None } else { Some(self.fixture_for(&params)?) };
+            let all = match fi { None => self.fixture.signers_fixture(), Some(i) => self.fixtures[i].signers_fixture() };
             let sws: Vec<_> = parties.iter().map(|p| all[*p].signer_with_stake.clone()).collect();
-            let builder = SignerBuilder::new(&sws, &self.params).ok()?;
+            let builder = SignerBuilder::new(&sws, &params).ok()?;
             let multi_signer = builder.build_multi_signer();
             let avk_conc: mithril_common::crypto_helper::ProtocolAggregateVerificationKeyForConcatenation =
                 multi_signer.compute_aggregate_verification_key().to_concatenation_aggregate_verification_key().to_owned().into();
@@ -383,7 +416,7 @@ impl World {
                     signers.insert(*p, s);
                 }
             }
-            self.crypto.insert(key, KeyCrypto { parties, multi_signer, signers, avk_hex });
+            self.crypto.insert(key, KeyCrypto { params, parties, multi_signer, signers, avk_hex });
         }
         self.crypto.get(&key)
     }
@@ -669,6 +702,14 @@ impl World {
         };
         if outcome == "ok" {
             self.regs.entry(key).or_default().push(party);
+            // what this signer was told to set its protocol initializer up with (`/epoch-settings`)
+            let told = self.tester.dependencies.verif_epoch_service().read().await.signer_registration_protocol_parameters().ok().cloned();
+            if let Some(told) = told {
+                match self.params_of_key.get(&key) {
+                    None => { if told != self.params { self.params_of_key.insert(key, told); self.tags.insert("registered-under-new-parameters".into()); } }
+                    Some(prev) => { if *prev != told { self.sfails.push(("registration-parameters-changed-within-a-round".into(), format!("signers registering for key {} were told {:?}, later ones {:?}", key, prev, told))); } }
+                }
+            }
         }
         self.tags.insert(format!("reg-{}", outcome));
         self.record(format!("(reg,{},{})", key, party), outcome);
@@ -711,7 +752,6 @@ impl World {
         // primitive verdicts, computed with the STM library directly (not through the code under test):
         // the signature verifies for `msg` with the producer's own key and stake under the aggregate key
         // of the signer set of key e-1, and the producer belongs to that set
-        let stm_params: mithril_common::crypto_helper::ProtocolParameters = self.params.clone().into();
         let stm_sig = sig.to_protocol_signature();
         let bytes = msg.to_message();
         let own = if signer < self.n() { Some(self.fixture.signers_fixture()[signer].signer_with_stake.clone()) } else { None };
@@ -721,6 +761,7 @@ impl World {
                 if !kc.parties.contains(&signer) {
                     continue;
                 }
+                let stm_params: mithril_common::crypto_helper::ProtocolParameters = kc.params.clone().into();
                 let avk = kc.multi_signer.compute_aggregate_verification_key();
                 let vk = own.verification_key_for_concatenation.vk;
                 if stm_sig.verify(&stm_params, &vk, &own.stake, &avk, bytes.as_bytes()).is_ok() {
@@ -798,6 +839,18 @@ impl World {
         self.record("(rst)".to_string(), "ok");
     }
 
+    /// the process is stopped, the epoch changes while it is down, and it is started again with other protocol
+    /// parameters in its configuration (the operator's way of changing them): they are the registration parameters
+    /// of the new epoch's round, i.e. the parameters of the messages of the epoch after the next
+    pub async fn restart_across_epoch_with_params(&mut self, p: ProtocolParameters) {
+        self.settle().await;
+        self.tester.increase_epoch().await.unwrap();
+        self.cfg.protocol_parameters = Some(p);
+        self.tester.rebuild(self.cfg.clone()).await;
+        self.record("(rst)".to_string(), "ok");
+        self.tags.insert("restart-with-new-parameters".into());
+    }
+
     // ------------------------------------------------------------------ request line
 
     /// `ents=[(disc,epoch)…]`: attributes of the entity ids used in the events
@@ -814,11 +867,18 @@ impl World {
     }
 
     pub fn request(&self, op: &str) -> String {
+        // `ks`: quorum parameter per message epoch where it differs from the initial one (key K signs epoch K + 1)
+        let ks = if self.params_of_key.is_empty() {
+            String::new()
+        } else {
+            format!(" ks=[{}]", self.params_of_key.iter().map(|(key, p)| format!("({},{})", key + 1, p.k)).collect::<Vec<_>>().join(","))
+        };
         format!(
-            "{} n={} k={} gen={} ents={} evs=[{}]",
+            "{} n={} k={}{} gen={} ents={} evs=[{}]",
             op,
             self.n(),
             self.params.k,
+            ks,
             self.genesis_epoch,
             self.ents_arg(),
             self.events.join(",")
@@ -906,8 +966,8 @@ impl World {
             if next != nxt {
                 fails.push(("next-avk".into(), format!("certificate #{} of epoch {} announces another next aggregate key than the registrations of key {} give", i, row.epoch, row.epoch)));
             }
-            if c.metadata.protocol_parameters != self.params {
-                fails.push(("params".into(), format!("certificate #{} carries other protocol parameters", i)));
+            if c.metadata.protocol_parameters != self.params_for_key(row.epoch - 1) {
+                fails.push(("params".into(), format!("certificate #{} of epoch {} carries other protocol parameters ({:?}) than the ones its signers were given when they registered ({:?})", i, row.epoch, c.metadata.protocol_parameters, self.params_for_key(row.epoch - 1))));
             }
             let regs = self.regs.get(&(row.epoch - 1)).cloned().unwrap_or_default();
             let ent = row.ent.unwrap();
